@@ -234,3 +234,76 @@ func (u *BadJ2) Unwrap(i uint16) int64 {
 	u.last += delta
 	return u.last
 }
+
+// ---- L4 ---------------------------------------------------------------------------------------------------------------
+
+type l4node struct {
+	key        uint16
+	next, prev *l4node
+}
+
+type l4list struct{ head *l4node }
+
+// GoodL4insert handles the head separately with <=, so the walk never stops at its first node.
+func (l *l4list) GoodL4insert(key uint16) {
+	n := &l4node{key: key}
+	if l.head == nil {
+		l.head = n
+		return
+	}
+	if key <= l.head.key {
+		n.next = l.head
+		l.head.prev = n
+		l.head = n
+		return
+	}
+	cur, prev := l.head, l.head
+	for cur != nil {
+		if key <= cur.key {
+			break
+		}
+		prev = cur
+		cur = cur.next
+	}
+	if cur == nil {
+		prev.next = n
+		n.prev = prev
+		return
+	}
+	n.next = cur
+	n.prev = prev
+	prev.next = n
+	cur.prev = n
+}
+
+// BadL4insert: a key equal to the head's stops the walk at once with prev == cur: n.next = cur, cur.next = n.
+func (l *l4list) BadL4insert(key uint16) {
+	n := &l4node{key: key}
+	if l.head == nil {
+		l.head = n
+		return
+	}
+	if key < l.head.key {
+		n.next = l.head
+		l.head.prev = n
+		l.head = n
+		return
+	}
+	cur, prev := l.head, l.head
+	for cur != nil {
+		if key <= cur.key {
+			break
+		}
+		prev = cur
+		cur = cur.next
+	}
+	if cur == nil {
+		prev.next = n
+		n.prev = prev
+		return
+	}
+	n.next = cur
+	n.prev = prev
+	prev.next = n
+	cur.prev = n
+}
